@@ -18,8 +18,10 @@ def sdecode_many(hexes):
     for o in outs:
         if o.startswith("ok"):
             res.append(iongen.canon_spec_obs(o[3:] if len(o) > 2 else ""))
+        elif o == "invalid":
+            res.append(None)               # outside the binary format
         else:
-            res.append(None)
+            res.append("?" + o)            # no answer (see vlib.oracle_silent): never a verdict
     return res
 
 
